@@ -26,6 +26,18 @@ Ltac destr_step H :=
          end;
   injection Hex as <- <- <-.
 
+(* the deadline operations leave the closed bit, the input lock and the queue alone *)
+Lemma i_setdeadline_keeps me m g :
+  i_cl (i_setdeadline me m g) = i_cl g /\ i_lk (i_setdeadline me m g) = i_lk g /\ i_q (i_setdeadline me m g) = i_q g.
+Proof. destruct m; cbn; auto. Qed.
+
+Lemma i_fire_keeps j g :
+  i_cl (i_fire j g) = i_cl g /\ i_lk (i_fire j g) = i_lk g /\ i_q (i_fire j g) = i_q g.
+Proof.
+  unfold i_fire. destruct (i_gen g) as [k|]; [|auto].
+  destruct (Nat.eqb k j && i_armed g); cbn; auto.
+Qed.
+
 (* ---- the closed bits only ever get set; a closing that is complete (bit set,
         tag written) stays complete ---- *)
 
@@ -33,7 +45,9 @@ Lemma step_mono : forall s i s', step s i = Some s' ->
   (o_cl (s_o s) = true -> o_cl (s_o s') = true) /\ (i_cl (s_i s) = true -> i_cl (s_i s') = true) /\
   (o_cl (s_o s) = true /\ o_pend (s_o s) = false -> o_cl (s_o s') = true /\ o_pend (s_o s') = false).
 Proof.
-  intros s i s' H. destr_step H; cbn; (split; [|split]); auto; try (intros; apply o_mark_cl); try congruence.
+  intros s i s' H. destr_step H; cbn;
+    rewrite ?(proj1 (i_setdeadline_keeps _ _ _)), ?(proj1 (i_fire_keeps _ _));
+    (split; [|split]); auto; try (intros; apply o_mark_cl); try congruence.
   - (* OMark *) intros [A B]. unfold o_mark. rewrite A. auto.
   - (* OWriteTag *) unfold o_writetag. destruct (o_pend (s_o s)); cbn; auto.
   - (* OWriteTag *) intros [A B]. unfold o_writetag. rewrite B. auto.
